@@ -582,10 +582,8 @@ func (s *c15scn) body() {
 			vs.Failf("c15:first-request-wrong-options", "bound value not sent as bound: {%s}: %s", d.options, desc())
 		}
 	}
-	if r.err == nil && len(w.reqs) < last-first+1 && len(r.rows) >= len(want) {
-		// only reachable when trailing pages are empty: they must still be asked for (the node said has_more_pages)
-		// -- not demanded by the property (no row is lost): noted, not a violation
-	}
+	// (fewer requests than pages with a normal end and all rows seen would only be possible with trailing empty
+	// pages; no row is lost then, so the property does not forbid it: not checked)
 	if len(w.reqs) != nReqAtReturn {
 		vs.Failf("c15:request-after-iteration-ended", "%d request(s) reached the node after the consumer had finished: %s", len(w.reqs)-nReqAtReturn, desc())
 	}
@@ -797,5 +795,5 @@ func main() {
 			"the node answers a request according to the paging state it RECEIVES and logs statement/id, values, consistency, flags, page size, paging state (decoded by the independent reference codec)",
 			"stream-allocator atomics are not scheduling points (C08); map iteration order fixed; -race pass separate",
 			"page size does not constrain the script (a node may return fewer rows than the page size; scripts have <= 3 rows per page and page size >= 3)"},
-		defs, 45*time.Second, 6*time.Minute, nil)
+		defs, 60*time.Second, 6*time.Minute, nil)
 }
